@@ -31,7 +31,7 @@ PROPS = {
         'level': 'proof',
     },
     'C10': {
-        'modules': ['contracts.c10_api', 'contracts.c10_props'],
+        'modules': ['contracts.c10_api', 'contracts.c10_props', 'contracts.c10_enum'],
         'standins': ['py_api'],
         'trusted': PYVC_TRUST + ['CPython list/dict operation semantics as modelled in contracts/absobj.py'],
         'assumptions': ['histories: every public operation preserves wf_msg and refines the model => every finite history does (induction)'],
